@@ -334,8 +334,10 @@ class Waiting(State):
         self._waiting_future = futures.Future()
 
     def interrupt(self, reason: Any) -> None:
-        # This will cause the future in execute() to raise the exception
-        self._waiting_future.set_exception(reason)
+        # This will cause the future in execute() to raise the exception, unless the wait is already over (resumed, or
+        # interrupted by an earlier request): then the process deals with its interrupt action when execute() returns
+        if not self._waiting_future.done():
+            self._waiting_future.set_exception(reason)
 
     async def execute(self) -> State:  # type: ignore
         try:
